@@ -1090,3 +1090,5 @@ M('C19', 'first-seen-config-sections-copied-shallowly', CFGPY, "            if k
 T('C19', 'twin-recursive-update-uses-setdefault', CFGPY, "            if k not in target:\n                target[k] = {}\n            recursive_update(target[k], v, include_none)\n", "            target.setdefault(k, {})\n            recursive_update(target[k], v, include_none)\n")
 M('C01', 'attachments-skipped-when-the-alignment-predicate-agrees', NBD, "        dd = diff_mime_bundle(avalue, bvalue)\n        if dd:\n            di.patch(key, dd)", "        if compare_mimebundle_strict(avalue, bvalue):\n            continue\n        dd = diff_mime_bundle(avalue, bvalue)\n        if dd:\n            di.patch(key, dd)", 'R01.27')
 T('C01', 'twin-attachments-skipped-when-strictly-equal', NBD, "        dd = diff_mime_bundle(avalue, bvalue)\n        if dd:\n            di.patch(key, dd)", "        if strict_equal(avalue, bvalue):\n            continue\n        dd = diff_mime_bundle(avalue, bvalue)\n        if dd:\n            di.patch(key, dd)")
+M('C11', 'mime-lists-diffed-as-joined-text', NBD, "        dd = diff(avalue, bvalue)\n        if dd:\n            diffbuilder.patch(key, dd)", "        if isinstance(avalue, list):\n            dd = diff(''.join(avalue), ''.join(bvalue))\n        else:\n            dd = diff(avalue, bvalue)\n        if dd:\n            diffbuilder.patch(key, dd)", 'R11.16')
+T('C11', 'twin-mime-diff-passed-inline', NBD, "        dd = diff(avalue, bvalue)\n        if dd:\n            diffbuilder.patch(key, dd)", "        if diff(avalue, bvalue):\n            diffbuilder.patch(key, diff(avalue, bvalue))")
